@@ -239,6 +239,8 @@ func c15(x *mon.Ctx) {
 	x.Require("device-grid", 9, 8600, 8748)
 	x.Extra["exhaustive"] = true
 
+	realDeviceThroughEmulatedDriver(x)
+
 	// ---- the bytes handed to the caller are the caller's: a later call with another answer must not change them
 	for k := 0; k < 8; k++ {
 		q1, q2 := randBytes(r, 1000+k*37), randBytes(r, 3000+k*11)
